@@ -16,6 +16,7 @@ import gomod
 import gogen
 import k4
 import c02cat
+import trcorr
 
 LEVEL = "proof"
 
@@ -52,7 +53,7 @@ def known_entries():
 
 def check(ctx, build=None):
     if build is None:
-        build = C.ensure_built("C02", ["translator"], need_harness=False, extra_go=gomod.EXTRA_GO)
+        build = C.ensure_built("C02", ["guards"], need_harness=False, extra_go=gomod.EXTRA_GO)
     if not build.driver_ok:
         raise C.Infra("the Lean driver does not build; the interpreter is needed for C02")
     scratch = C.scratch()
@@ -128,6 +129,13 @@ def check(ctx, build=None):
                       "emitted": k4.emitted_def(lr["text"], "F")}, {"go": m["go"], "or": "a conversion error"}, {"gooselang": m["gl"]})
             else:
                 per_entry[eid]["faithful"] += 1
+        # ---- the control-flow model against the real translator: which skeletons are rejected, and why
+        for ts in range(ctx.seed * 40 + 1000, ctx.seed * 40 + 1000 + (2 if ctx.tier == "quick" else 25)):
+            st, bad = trcorr.run(ts, 40, scratch)
+            stats["skeletons"] += st["functions"]
+            stats["skeletons_rejected"] += st.get("rejected", 0)
+            if bad and not any(b["kind"] == "correspondence" for b in build.broken):
+                build.broken.append({"kind": "correspondence", "name": "tr: Model.Tr.trStmts vs what goose accepts and rejects", "detail": json.dumps(bad)[:2500]})
         # ---- subset programs with one catalogue statement spliced in at a random position
         import c02splice
         for res in c02splice.run(ctx, scratch, known):
